@@ -347,7 +347,7 @@ func c14SplitScenario(server string, nw, nr int) explore.Scenario {
 	}
 }
 
-func c14Scenario(server string, nw, nr int, twoHandles bool, alloc bool, mid bool) explore.Scenario {
+func c14Scenario(server string, nw, nr int, twoHandles bool, alloc bool, mid bool, ro bool) explore.Scenario {
 	return func() (func(), func(*vsched.Exec) explore.Verdict) {
 		const init = "ABCDEFGHIJKLMNOP"
 		spec := &srvSpec{server: server, alloc: alloc, split: true, hangup: -1, files: map[string]string{"/f": init, "/g": init}}
@@ -360,10 +360,16 @@ func c14Scenario(server string, nw, nr int, twoHandles bool, alloc bool, mid boo
 			}
 			return "/" + n
 		}
-		spec.setup = append(spec.setup, mustPkt(&sshFxpOpenPacket{ID: 1, Path: name("f"), Pflags: sshFxfRead | sshFxfWrite}))
+		pf := uint32(sshFxfRead | sshFxfWrite)
+		if ro {
+			// a read-only os-backed server: the handles are opened for reading, the burst holds reads only
+			spec.readOnly = true
+			pf = sshFxfRead
+		}
+		spec.setup = append(spec.setup, mustPkt(&sshFxpOpenPacket{ID: 1, Path: name("f"), Pflags: pf}))
 		handles := []string{"1"}
 		if twoHandles {
-			spec.setup = append(spec.setup, mustPkt(&sshFxpOpenPacket{ID: 2, Path: name("g"), Pflags: sshFxfRead | sshFxfWrite}))
+			spec.setup = append(spec.setup, mustPkt(&sshFxpOpenPacket{ID: 2, Path: name("g"), Pflags: pf}))
 			handles = append(handles, "2")
 		}
 		id := uint32(10)
@@ -480,7 +486,7 @@ func atoiDef(s string, d int) int {
 
 func init() {
 	reg.Part("C14/sched", func(c *reg.Ctx) *reg.Result {
-		sc := c14Scenario(c.Arg("server", "rs"), c.ArgInt("nw", 2), c.ArgInt("nr", 1), c.Arg("two", "0") == "1", c.Arg("alloc", "0") == "1", c.Arg("mid", "0") == "1")
+		sc := c14Scenario(c.Arg("server", "rs"), c.ArgInt("nw", 2), c.ArgInt("nr", 1), c.Arg("two", "0") == "1", c.Arg("alloc", "0") == "1", c.Arg("mid", "0") == "1", c.Arg("ro", "0") == "1")
 		if c.Arg("splitmode", "0") == "1" {
 			sc = c14SplitScenario(c.Arg("server", "rs"), c.ArgInt("nw", 2), c.ArgInt("nr", 2))
 		}
@@ -493,6 +499,14 @@ func init() {
 			"'open; write*k; read*j; close' with at most d deviations from the default schedule; distinct = distinct (response stream, final content) outcomes",
 		Assumptions: []string{"deviation bound d and participant bound W as stated per job", "handler object calls are atomic between their enter and exit points", "map iteration sorted"},
 		Jobs: func(tier string) []reg.Job {
+			return withPolicies(tier, c14Jobs(tier), func(j reg.Job) bool { return j.Args["server"] != "os" })
+		},
+	})
+}
+
+func c14Jobs(tier string) []reg.Job {
+	{
+		{
 			j := func(label, build, server string, nw, nr int, two bool, bound, budget int) reg.Job {
 				a := map[string]string{"server": server, "nw": fmt.Sprint(nw), "nr": fmt.Sprint(nr), "bound": fmt.Sprint(bound)}
 				if two {
@@ -507,6 +521,16 @@ func init() {
 					j("rs W=3 two handles db3", "instr-w3", "rs", 1, 1, true, 3, 600),
 					j("os W=8 2w+1r db3", "instr", "os", 2, 1, false, 3, 900),
 					j("os W=2 2w+2r db3", "instr-w2", "os", 2, 2, false, 3, 600),
+					func() reg.Job {
+						x := j("os read-only W=2 3r, fstat, close db4", "instr-w2", "os", 0, 3, false, 4, 600)
+						x.Args["ro"], x.Args["mid"] = "1", "1"
+						return x
+					}(),
+					func() reg.Job {
+						x := j("os read-only W=8 3r, close db3", "instr", "os", 0, 3, false, 3, 600)
+						x.Args["ro"] = "1"
+						return x
+					}(),
 					func() reg.Job {
 						x := j("rs W=2 2w+1r, fstat, close db3", "instr-w2", "rs", 2, 1, false, 3, 600)
 						x.Args["mid"] = "1"
@@ -535,9 +559,19 @@ func init() {
 					return x
 				}(),
 				j("os W=2 two handles interleaved 2w+1r each db2", "instr-w2", "os", 2, 1, true, 2, 100),
+				func() reg.Job {
+					x := j("os read-only W=2 3r, close db3", "instr-w2", "os", 0, 3, false, 3, 100)
+					x.Args["ro"] = "1"
+					return x
+				}(),
+				func() reg.Job {
+					x := j("os read-only W=8 3r, close db2", "instr", "os", 0, 3, false, 2, 100)
+					x.Args["ro"] = "1"
+					return x
+				}(),
 			}
-		},
-	})
+		}
+	}
 }
 
 var _ = bytes.Equal
